@@ -17,6 +17,7 @@ def main():
     checks = []
     na = []
     engines = []
+    lean_mods = []
     accepted = set(open(os.path.join(HERE, "claimed.txt")).read().split())
     for p in props:
         pid = p["id"]
@@ -42,11 +43,12 @@ def main():
             "level_note": getattr(mod, "LEVEL_NOTE", "Trusted: Lean kernel; the hand-written model is tied to the code by differential execution only; see evidence trusted_base"),
             "technique": getattr(mod, "TECHNIQUE", "Lean 4 theorems over a hand-written executable model + differential correspondence check against the compiled working tree"),
         })
+        lean_mods.extend(mod.LEAN_MODULES)
         engines.append({"name": mod.ENGINE, "path": "harness/ + lean/Driver/", "serves_properties": [pid],
                         "kind_free_text": "C++ harness over the working tree vs compiled Lean model, same op lines"})
     man = {
         "version": 1,
-        "setup_cmd": "cd lean && lake build RtoscModel " + " ".join("drv_" + e["name"] for e in engines),
+        "setup_cmd": "cd lean && lake build " + " ".join(sorted(set(lean_mods))) + " " + " ".join("drv_" + e["name"] for e in engines if e["name"] != "rt"),
         "hooks": {"guard": "RTOSC_VERIF", "enable": "harnesses compile /repo/src and /repo/include directly with -DRTOSC_VERIF (no guarded source hook exists at this commit; see DESIGN.md 2.8)",
                   "baseline_off_cmd": "cmake -G Ninja -B /repo/_build -S /repo && cmake --build /repo/_build && ctest --test-dir /repo/_build -j8 --timeout 900",
                   "source_commits": [], "add_only": True},
